@@ -40,7 +40,8 @@ def _shard_v(args):
     from harness import c11_offset as H
     rec = H.Rec()
     traces, scripts = [], {}
-    for tid0, prog, variant, seed, ncand, nwalk, wsteps in jobs:
+    tid = 0  # trace ids are unique within the batch (one batch per shard)
+    for _, prog, variant, seed, ncand, nwalk, wsteps in jobs:
         src = _source(prog, variant, seed)
         S = H.Src(src)
         if not S.ok:
@@ -59,13 +60,14 @@ def _shard_v(args):
                     k += 1
             cands = picked
         meta = {'driver': 'v', 'prog': prog, 'variant': variant, 'seed': seed}
-        for tr, sc in H.run_source(rec, tid0, src, cands, rng):
+        for tr, sc in H.run_source(rec, tid + 1, src, cands, rng):
+            tid = tr['id']
             traces.append(tr)
             scripts[tr['id']] = dict(meta, mode='doundo', script=sc)
-        base = tid0 + 500
         for w in range(nwalk):
-            tr, sc = H.run_walk(rec, base + w, src, wsteps, random.Random(seed * 7 + w))
+            tr, sc = H.run_walk(rec, tid + 1, src, wsteps, random.Random(seed * 7 + w))
             if tr['steps']:
+                tid = tr['id']
                 traces.append(tr)
                 scripts[tr['id']] = dict(meta, mode='walk', script=sc)
     return dict(rec.tab.dump(), traces=traces), scripts
@@ -213,9 +215,9 @@ def _v_jobs(ctx, nsrc_variants, ncand, nwalk, wsteps):
             nc = ncand if (ncand is not None or variant in FULL_VARIANTS) else 200
             jobs.append((k * 1000, prog, variant, rng.randrange(1 << 30), nc, nwalk, wsteps))
     from harness import c11_offset
-    for e in range(len(c11_offset.EXTRA_SOURCES)):  # enumerated completely in every tier
+    for e in range(len(c11_offset.EXTRA_SOURCES)):  # 300 splices (+ undo) each in quick, every gap in thorough
         k += 1
-        jobs.append((k * 1000, -1 - e, 0, rng.randrange(1 << 30), None, 1, 10))
+        jobs.append((k * 1000, -1 - e, 0, rng.randrange(1 << 30), 300 if ctx.quick else None, 1, 10))
     rng.shuffle(jobs)
     return jobs
 
@@ -242,31 +244,33 @@ def run(ctx):
         _model(ctx, 'OffsetMC', 'OffsetMC_thorough', required=ACTIONS, timeout=2400, heap='6g')
         _model(ctx, 'OffsetMC', 'OffsetMC_n5', required=ACTIONS, timeout=3000, heap='6g')
     # ---- G
-    rows = _gen_rows(ctx, 'OffsetGen' if ctx.quick else 'OffsetGen_thorough')
-    cases, total = _g_cases(ctx, rows, 5000 if ctx.quick else 60000)
-    ctx.extra['g_cases_in_table'] = total
-    ctx.extra['g_cases_replayed'] = len(cases)
-    nsh = NPROC if len(cases) > 200 else 1
-    gres = _pool_map(_shard_g, [(k, cases[k::nsh]) for k in range(nsh)])
-    skipped = {}
-    for _, _, sk in gres:
-        for k, v in sk.items():
-            skipped[k] = skipped.get(k, 0) + v
-    ctx.extra['g_skipped_not_renderable'] = skipped
+    gres, vres = [], []
+    if 'G' in phases:
+        rows = _gen_rows(ctx, 'OffsetGen' if ctx.quick else 'OffsetGen_thorough')
+        cases, total = _g_cases(ctx, rows, 5000 if ctx.quick else 60000)
+        ctx.extra['g_cases_in_table'] = total
+        ctx.extra['g_cases_replayed'] = len(cases)
+        nsh = NPROC if len(cases) > 200 else 1
+        gres = _pool_map(_shard_g, [(k, cases[k::nsh]) for k in range(nsh)])
+        skipped = {}
+        for _, _, sk in gres:
+            for k, v in sk.items():
+                skipped[k] = skipped.get(k, 0) + v
+        ctx.extra['g_skipped_not_renderable'] = skipped
     # ---- V
-    if ctx.quick:
-        jobs = _v_jobs(ctx, 8, 18, 1, 8)
-    else:
-        jobs = _v_jobs(ctx, 8, None, 2, 25)
-    per = max(1, len(jobs) // (NPROC * (1 if ctx.quick else 6)))
-    vres = _pool_map(_shard_v, [(k, jobs[i:i + per]) for k, i in enumerate(range(0, len(jobs), per))])
+    if 'V' in phases:
+        if ctx.quick:
+            jobs = _v_jobs(ctx, 8, 18, 1, 8)
+        else:
+            jobs = _v_jobs(ctx, 8, None, 2, 25)
+        per = max(1, len(jobs) // (NPROC * (1 if ctx.quick else 6)))
+        vres = _pool_map(_shard_v, [(k, jobs[i:i + per]) for k, i in enumerate(range(0, len(jobs), per))])
     validated = _validate(ctx, gres + vres)
     n = _collect(ctx, validated)
     ctx.extra['events'] = n
-    if ctx.quick is False and not skipped and total > len(cases):
-        pass
     ctx.exhaustive = False
-    ctx.require_clauses(list(CLAUSES))
+    if phases == 'MGV':
+        ctx.require_clauses(list(CLAUSES))
 
 
 def replay(ctx, path):
